@@ -180,6 +180,20 @@ CHECKS['C08'] = dict(
     technique="Coq theorems over a byte-exact linker model + position-type oracle from get_symbols",
     design="6.C08")
 
+CHECKS['C15'] = dict(
+    text="Explain/Explain.v models _clingo_symbol_to_sentence and its helpers (subject/object attribute consumption with its list.remove "
+         "semantics, _entity_printer, _convert_verb, quote stripping, first-letter capitalisation) for atoms with at most one possible "
+         "subject; on every run the model's sentence is compared byte for byte with the implementation's for every atom of every answer "
+         "set of the stream (signature records serialised from ClingoResultParser). Theorem: sentence shape (C15_sentence_shape), with a "
+         "worked example for the repaired letter case. The property itself is decided per answer set by the oracle on the implementation: "
+         "exactly one sentence per atom of a defined concept and none for others, distinct atoms give distinct sentences, every argument "
+         "value and the concept name occur in the sentence, and - for wide-generator specifications, whose concepts are all declared - "
+         "compiling declarations + explanation gives a single answer set equal to the explained atoms. Partial: mentions-all / injectivity "
+         "are not proved in Coq; telingo traces are covered by the repository's own tests only.",
+    note="Trusted: Coq kernel; clingo for answer sets; serialisation of the parser's signature records; explanations of atoms with several possible subjects are outside the model (counted).",
+    technique="byte-exact Coq model of the sentence builder + per-answer-set oracle incl. read-back compilation",
+    design="6.C15")
+
 NOT_YET = {}
 
 
